@@ -46,6 +46,44 @@ CHECKS: dict[str, tuple[str, str, str, str, str]] = {
         "TLA+ inference rules (PtInfer) evaluated by TLC on recorded (pytato, NumPy) call "
         "results; exhaustive bounded enumeration of the call product",
         "DESIGN.md section 4 C03"),
+    "C05": (
+        "model_checking",
+        "Seeded random DAG programs (sharing, structural duplicates, near-duplicates differing "
+        "in one parameter, zeros_like/ones_like references, multi-output dictionaries, tags, "
+        "data wrappers sharing a buffer) are transformed by the real code (copy mapper, "
+        "map_and_copy(identity), deduplicate, deduplicate_data_wrappers, eliminate_dead_code, "
+        "materialize_with_mpms, unify_axes_tags, code-generation preprocessing), singly and in "
+        "pipelines of <= 4; the exported before/after graphs are judged by TLC: same output "
+        "names/shapes/dtypes(/axes/tags) and equal values under PtSem for every valuation, "
+        "plus the structural post-conditions (no duplicates after deduplicate, no zero() call "
+        "after DCE, only tags differ after the tag-adding steps, all nodes lowered after "
+        "preprocessing, idempotence) via hash-consing classes computed by TLC. The harness "
+        "compares a reflective structural snapshot of the input and the bytes of wrapped data "
+        "before/after every step.",
+        "Trusted: TLC, the reflective exporter. Values are exact in GF(10007) with "
+        "uninterpreted functions under 2 injective valuations (Schwartz-Zippel for arithmetic "
+        "identities). Programs are sampled (not exhaustive); symbolic shapes and loopy calls "
+        "are outside PtSem.",
+        "TLA+ denotational spec (PtSem) + structural relations (PtCheck) evaluated by TLC on "
+        "graphs exported before/after the real transformations (artefact validation)",
+        "DESIGN.md section 4 C05"),
+    "C06": (
+        "model_checking",
+        "Design level: PtDistLaw.tla model-checks the rule (x+y, x-y, c*x, x*c, x/c may be "
+        "pushed through an einsum; c/x, x**c, f(x), x*y, broadcasting sums may not) "
+        "exhaustively over GF(5)/GF(7). Implementation level: every operation form at every "
+        "operand position of 8 einsum templates x inner forms plus seeded random nested trees, "
+        "under EVERY distribution policy (all mixtures of distribute-operand-i / "
+        "do-not-distribute per einsum), is rewritten by the real "
+        "apply_distributive_property_to_einsums and rewrite_einsums_with_no_broadcasts, and "
+        "TLC decides equality of original and rewritten graph under PtSem in GF(10007) at 3 "
+        "valuations.",
+        "Trusted: TLC, exporter. Polynomial identity testing: a false identity of degree d "
+        "passes with probability <= (d/10007)^3. Documented refusals (RuntimeError for composed "
+        "distribution, unraisable index lambdas) constrain nothing.",
+        "TLC model checking of the distributive rule (PtDistLaw) + PtSem evaluated by TLC on "
+        "real rewritten graphs over all policies (artefact validation)",
+        "DESIGN.md section 4 C06"),
     "C19": (
         "model_checking",
         "Every index lambda the public API creates for the raisable operations (both operand "
